@@ -163,10 +163,18 @@ def chars(cell):
     return "".join(cell["s"]) if cell["set"] else None
 
 
-def judge_trace(rep, trace_path, direction, shards):
+def judge_trace(rep, trace_path, shards):
+    """Validates one ndjson file of harness records (random trees and soup,
+    each carrying its direction `dir`); returns (#records by dir, TLC states, wall, #rejected)."""
     rejects, states, wall, lines = validate(trace_path, shards)
+    by_dir = {}
+    for ln in lines:
+        m = re.search(r'"dir":\s*"(\w+)"', ln)
+        d = m.group(1) if m else "?"
+        by_dir[d] = by_dir.get(d, 0) + 1
     for (ln, why) in rejects:
         rec = json.loads(lines[ln - 1])
+        direction = rec["dir"]
         if why == "text":
             raise vlib.ToolError(f"harness text differs from Arith!Text for record {ln}: {lines[ln - 1][:600]}")
         if rec["k"] == "soup":
@@ -180,7 +188,7 @@ def judge_trace(rep, trace_path, direction, shards):
                    "observed": (o["t"] + ":" + (o["c"] or "")), "dev": dev}
             rep.violation(key, f"{direction}: outcome of the real code is not in Allowed(tree, env)",
                           {"dir": direction, "rec": rec})
-    return len(lines), states, wall, len(rejects)
+    return by_dir, states, wall, len(rejects)
 
 
 # ---------------------------------------------------------------------------
@@ -226,28 +234,39 @@ def run(tier):
     # 2. impl -> spec
     tr = os.path.join(wd, "random.ndjson")
     vlib.run_harness(PKG, ["random", "--n", T["random_n"], "--depth", T["random_depth"], "--out", tr])
-    n_rand, st1, w1, rej1 = judge_trace(rep, tr, "random", T["shards"])
-    vlib.log(f"[p4] {n_rand} random trees (depth <= {T['random_depth']}) validated by Trace_Arith in {w1:.1f}s, "
-             f"{rej1} rejected")
+    sp = os.path.join(wd, "soup.ndjson")
+    vlib.run_harness(PKG, ["soup", "--n", T["soup_n"], "--out", sp])
+    ssp = os.path.join(wd, "shellsoup.ndjson")
+    vlib.run_harness(PKG, ["shellsoup", "--n", T["shellsoup_n"], "--out", ssp], timeout=3000)
     with open(tr) as f:
         for i, line in enumerate(f):
             if i in (5, 1234):
                 d = json.loads(line)
                 samples.append({"text": d["text"], "env": {k: chars(v) for k, v in d["env"].items()},
                                 "observed": d["out"]["t"] + ":" + d["out"]["c"]})
-    sp = os.path.join(wd, "soup.ndjson")
-    vlib.run_harness(PKG, ["soup", "--n", T["soup_n"], "--out", sp])
-    n_soup, st2, w2, rej2 = judge_trace(rep, sp, "soup", T["shards"])
-    ssp = os.path.join(wd, "shellsoup.ndjson")
-    vlib.run_harness(PKG, ["shellsoup", "--n", T["shellsoup_n"], "--out", ssp], timeout=3000)
-    n_ssoup, st3, w3, rej3 = judge_trace(rep, ssp, "shellsoup", T["shards"])
-    vlib.log(f"[p4] {n_soup} soup texts (eval) + {n_ssoup} through the shell validated for totality "
-             f"in {w2 + w3:.1f}s, {rej2 + rej3} rejected")
     soup_classes = {}
     for d in vlib.read_ndjson(sp):
         k = d["out"]["t"] + ":" + d["out"]["c"]
         soup_classes[k] = soup_classes.get(k, 0) + 1
-    for p in (gen, obs, shobs, tr, sp, ssp):
+    alltr = os.path.join(wd, "trace.ndjson")
+    with open(alltr, "w") as out:
+        # interleave so that every shard gets a similar mix of cheap and expensive records
+        files = [open(p) for p in (tr, sp, ssp)]
+        live = list(files)
+        while live:
+            for f in list(live):
+                ln = f.readline()
+                if ln:
+                    out.write(ln)
+                else:
+                    live.remove(f)
+        for f in files:
+            f.close()
+    by_dir, st1, w1, rej = judge_trace(rep, alltr, T["shards"])
+    n_rand, n_soup, n_ssoup = by_dir.get("random", 0), by_dir.get("soup", 0), by_dir.get("shellsoup", 0)
+    vlib.log(f"[p4] Trace_Arith validated {n_rand} random trees (depth <= {T['random_depth']}), {n_soup} soup texts and "
+             f"{n_ssoup} soup texts through the shell in {w1:.1f}s; {rej} rejected")
+    for p in (gen, obs, shobs, tr, sp, ssp, alltr):
         try:
             os.remove(p)
         except OSError:
@@ -256,8 +275,8 @@ def run(tier):
     rc = rep.finish()
     known = sum(n for _, n in rep.known_hits.values())
     vlib.write_evidence(PID, tier, {
-        "states": states + st1 + st2 + st3,
-        "transitions": transitions + st1 + st2 + st3,
+        "states": states + st1,
+        "transitions": transitions + st1,
         "traces_validated_against_impl": n_replayed + n_shell + n_rand + n_soup + n_ssoup,
         "samples": samples,
         "evaluations": n_replayed + n_shell + n_rand + n_soup + n_ssoup,
